@@ -22,6 +22,7 @@ type Int struct {
 	C      uint64 // masked to W bits
 	Sym    string
 	Off    uint64 // symbolic value is Sym + Off (mod 2^W): keeps "base + constant" recognisable
+	RI     string // relaxed float mode: an SMT Int term equal to the (signed) value, when known
 }
 
 type Bool struct {
@@ -37,6 +38,11 @@ type Float struct {
 	// provenance (exact facts about the value, used to keep integer code in BV)
 	FromInt *Int // value == float64(FromInt) (conversion of that int64)
 	Pow2Of  *Int // value == 2^Pow2Of exactly (validity checked at creation)
+	// relaxed mode: a concrete enclosure Lo <= value <= Hi, when known; lets the rounding error of
+	// an operation be modelled as an absolute (linear) term instead of a relative (non-linear) one
+	HasIv  bool
+	Lo, Hi float64
+	IntR   string // relaxed mode: an SMT Int term equal to the (integer) value
 }
 
 // Wide is a ghost mathematical integer (192-bit two's complement symbolically).
@@ -170,6 +176,12 @@ func bAnd(a, b Bool) Bool {
 		}
 		return b
 	}
+	if a.Sym == "(not "+b.Sym+")" || b.Sym == "(not "+a.Sym+")" {
+		return mkBool(false)
+	}
+	if a.Sym == b.Sym {
+		return a
+	}
 	return symBool("(and " + a.Sym + " " + b.Sym + ")")
 }
 
@@ -184,6 +196,12 @@ func bOr(a, b Bool) Bool {
 		if b.C {
 			return b
 		}
+		return a
+	}
+	if a.Sym == "(not "+b.Sym+")" || b.Sym == "(not "+a.Sym+")" {
+		return mkBool(true)
+	}
+	if a.Sym == b.Sym {
 		return a
 	}
 	return symBool("(or " + a.Sym + " " + b.Sym + ")")
@@ -316,11 +334,17 @@ func iBin(op string, a, b Int) Int {
 			r := b
 			r.Off = (b.Off + a.C) & mask(w)
 			r.W, r.Signed = w, sg
+			if a.C != 0 {
+				r.RI = ""
+			}
 			return r
 		}
 		if b.IsC {
 			r := a
 			r.Off = (a.Off + b.C) & mask(w)
+			if b.C != 0 {
+				r.RI = ""
+			}
 			return r
 		}
 		return Int{W: w, Signed: sg, Sym: "(bvadd " + a.Sym + " " + b.Sym + ")", Off: (a.Off + b.Off) & mask(w)}
@@ -328,6 +352,9 @@ func iBin(op string, a, b Int) Int {
 		if b.IsC {
 			r := a
 			r.Off = (a.Off - b.C) & mask(w)
+			if b.C != 0 {
+				r.RI = ""
+			}
 			return r
 		}
 		if !a.IsC {
@@ -429,7 +456,11 @@ func iConv(a Int, w int, signed bool) Int {
 		return mkInt(w, signed, a.C)
 	}
 	if w == a.W {
-		return Int{W: w, Signed: signed, Sym: a.Sym, Off: a.Off}
+		r := Int{W: w, Signed: signed, Sym: a.Sym, Off: a.Off}
+		if signed == a.Signed {
+			r.RI = a.RI
+		}
+		return r
 	}
 	if w < a.W {
 		return Int{W: w, Signed: signed, Sym: fmt.Sprintf("((_ extract %d 0) %s)", w-1, a.Sym), Off: a.Off & mask(w)}
